@@ -1,0 +1,232 @@
+//go:build verif
+
+// Package verifhook provides named instrumentation points for the external
+// verification harness. With the "verif" build tag the harness can register
+// actions (count, delay, fail, kill the process) per point.
+package verifhook
+
+import (
+	"context"
+	"errors"
+	"fmt"
+	"os"
+	"strconv"
+	"strings"
+	"sync"
+	"syscall"
+	"time"
+)
+
+// Enabled reports whether the hooks are compiled in.
+const Enabled = true
+
+// ErrInjected is the error returned by "err" actions.
+var ErrInjected = errors.New("verifhook: injected failure")
+
+// Action is invoked on every hit of a point; n is the 1-based hit number of
+// that point (counted per registration scope, see Set/SetScoped).
+type Action func(name string, n int64) error
+
+type scopeKey struct{}
+
+// Scope identifies one harness operation; scoped actions only fire for hits
+// whose context carries the same scope.
+type Scope struct {
+	mu     sync.Mutex
+	counts map[string]int64
+	trace  []string
+	Trace  bool
+}
+
+type entry struct {
+	action Action
+	scope  *Scope // nil = global
+}
+
+var (
+	mu      sync.Mutex
+	actions = map[string][]entry{}
+	any     []entry // actions that fire on every point
+	counts  = map[string]int64{}
+)
+
+// NewScope creates a scope; WithScope attaches it to a context.
+func NewScope() *Scope { return &Scope{counts: map[string]int64{}} }
+
+func WithScope(ctx context.Context, s *Scope) context.Context {
+	return context.WithValue(ctx, scopeKey{}, s)
+}
+
+// Counts returns a copy of the per-point hit counts observed in the scope.
+func (s *Scope) Counts() map[string]int64 {
+	s.mu.Lock()
+	defer s.mu.Unlock()
+	out := make(map[string]int64, len(s.counts))
+	for k, v := range s.counts {
+		out[k] = v
+	}
+	return out
+}
+
+// Points returns the ordered list of points hit in the scope (when Trace is set).
+func (s *Scope) Points() []string {
+	s.mu.Lock()
+	defer s.mu.Unlock()
+	return append([]string(nil), s.trace...)
+}
+
+// Set registers a global action for a point ("*" = every point).
+func Set(name string, a Action) { set(name, entry{action: a}) }
+
+// SetScoped registers an action that only fires for hits carrying scope s.
+func SetScoped(s *Scope, name string, a Action) { set(name, entry{action: a, scope: s}) }
+
+func set(name string, e entry) {
+	mu.Lock()
+	defer mu.Unlock()
+	if name == "*" {
+		any = append(any, e)
+		return
+	}
+	actions[name] = append(actions[name], e)
+}
+
+// Clear removes every registered action and resets the global counters.
+func Clear() {
+	mu.Lock()
+	defer mu.Unlock()
+	actions = map[string][]entry{}
+	any = nil
+	counts = map[string]int64{}
+}
+
+// Count returns the global hit count of a point.
+func Count(name string) int64 {
+	mu.Lock()
+	defer mu.Unlock()
+	return counts[name]
+}
+
+// Counts returns a copy of all global hit counts.
+func Counts() map[string]int64 {
+	mu.Lock()
+	defer mu.Unlock()
+	out := make(map[string]int64, len(counts))
+	for k, v := range counts {
+		out[k] = v
+	}
+	return out
+}
+
+// Hit marks a named instrumentation point.
+func Hit(name string) error { return HitCtx(context.Background(), name) }
+
+// HitCtx marks a named instrumentation point for the operation carried by ctx.
+func HitCtx(ctx context.Context, name string) error {
+	var sc *Scope
+	if ctx != nil {
+		sc, _ = ctx.Value(scopeKey{}).(*Scope)
+	}
+	mu.Lock()
+	counts[name]++
+	gn := counts[name]
+	todo := make([]entry, 0, 2)
+	todo = append(todo, actions[name]...)
+	todo = append(todo, any...)
+	mu.Unlock()
+	var sn int64
+	if sc != nil {
+		sc.mu.Lock()
+		sc.counts[name]++
+		sn = sc.counts[name]
+		if sc.Trace {
+			sc.trace = append(sc.trace, name)
+		}
+		sc.mu.Unlock()
+	}
+	for _, e := range todo {
+		if e.scope != nil {
+			if e.scope != sc {
+				continue
+			}
+			if err := e.action(name, sn); err != nil {
+				return err
+			}
+			continue
+		}
+		if err := e.action(name, gn); err != nil {
+			return err
+		}
+	}
+	return nil
+}
+
+// Kill terminates the process immediately, like a power cut.
+func Kill() {
+	_ = syscall.Kill(os.Getpid(), syscall.SIGKILL)
+	select {}
+}
+
+// ParseAction builds an action from a spec: "kill@N", "err@N", "sleep:<dur>@N";
+// "@*" (or no @) applies to every hit.
+func ParseAction(spec string) (Action, error) {
+	what, at := spec, "*"
+	if i := strings.LastIndex(spec, "@"); i >= 0 {
+		what, at = spec[:i], spec[i+1:]
+	}
+	var when int64 = -1
+	if at != "*" {
+		v, err := strconv.ParseInt(at, 10, 64)
+		if err != nil {
+			return nil, fmt.Errorf("verifhook: bad hit index in %q", spec)
+		}
+		when = v
+	}
+	var act func() error
+	switch {
+	case what == "kill":
+		act = func() error { Kill(); return nil }
+	case what == "err":
+		act = func() error { return ErrInjected }
+	case strings.HasPrefix(what, "sleep:"):
+		d, err := time.ParseDuration(strings.TrimPrefix(what, "sleep:"))
+		if err != nil {
+			return nil, err
+		}
+		act = func() error { time.Sleep(d); return nil }
+	default:
+		return nil, fmt.Errorf("verifhook: unknown action %q", spec)
+	}
+	return func(_ string, n int64) error {
+		if when >= 0 && n != when {
+			return nil
+		}
+		return act()
+	}, nil
+}
+
+// VERIF_HOOKS="point=action;point=action" configures global actions for child
+// processes of the harness.
+func init() {
+	env := os.Getenv("VERIF_HOOKS")
+	if env == "" {
+		return
+	}
+	for _, item := range strings.Split(env, ";") {
+		item = strings.TrimSpace(item)
+		if item == "" {
+			continue
+		}
+		name, spec, ok := strings.Cut(item, "=")
+		if !ok {
+			fmt.Fprintf(os.Stderr, "verifhook: bad VERIF_HOOKS item %q\n", item)
+			os.Exit(3)
+		}
+		a, err := ParseAction(spec)
+		if err != nil {
+			fmt.Fprintln(os.Stderr, err)
+			os.Exit(3)
+		}
+		Set(name, a)
+	}
+}
